@@ -88,6 +88,9 @@ func main() {
 		fmt.Fprintln(os.Stderr, "replay: C17 cases are pure functions of the operands; re-running the whole pool at the recorded seed")
 	}
 
+	if ord.LT != -1 || ord.EQ != 0 || ord.GT != 1 {
+		bad("ord.Ordering/constants", fmt.Sprintf("LT,EQ,GT = %d,%d,%d; documented -1,0,+1 (the zero Ordering is EQ, negation swaps LT and GT)", ord.LT, ord.EQ, ord.GT), caseT{Kind: "constants"})
+	}
 	checkInts(ints)
 	checkStrs(strs)
 	checkContraMap(ints, strs)
@@ -241,6 +244,10 @@ func checkContraMap(ints []int, strs []string) {
 		ce := eq.ContraMap[int, person]{Eq: baseEq, ContraMap: pure.ContraMap[int, person](pi.f)}
 		co := ord.ContraMap[int, person]{Ord: baseOrd, ContraMap: pure.ContraMap[int, person](pi.f)}
 		cstd := ord.ContraMap[int, person]{Ord: ord.Int, ContraMap: pure.ContraMap[int, person](pi.f)}
+		// a base instance lifted from a difference comparator: its results are any int, the derived instance must pass them on
+		diff := func(a, b int) ord.Ordering { return ord.Ordering(a/3 - b/3) }
+		cdiff := ord.ContraMap[int, person]{Ord: ord.From[int](diff), ContraMap: pure.ContraMap[int, person](pi.f)}
+		nested := ord.ContraMap[int, person]{Ord: ord.ContraMap[int, int]{Ord: ord.From[int](diff), ContraMap: func(x int) int { return x / 2 }}, ContraMap: pure.ContraMap[int, person](pi.f)}
 		estd := eq.ContraMap[int, person]{Eq: eq.Int, ContraMap: pure.ContraMap[int, person](pi.f)}
 		for _, a := range people {
 			for _, b := range people {
@@ -259,6 +266,15 @@ func checkContraMap(ints []int, strs []string) {
 				}
 				if cstd.Compare(a, b) != cmpInt(pa, pb) {
 					bad("ord.ContraMap/ord.Int", fmt.Sprintf("%s: %v %v", pi.name, a, b), c)
+				}
+				if g := cdiff.Compare(a, b); g != diff(pa, pb) {
+					bad("ord.ContraMap", fmt.Sprintf("%s: base lifted from a difference comparator gives %d on the projections (%d,%d), the derived instance gave %d", pi.name, diff(pa, pb), pa, pb, g), c)
+				}
+				if g := nested.Compare(a, b); g != diff(pa/2, pb/2) {
+					bad("ord.ContraMap", fmt.Sprintf("%s: nested ContraMap gave %d, base on projections gives %d", pi.name, g, diff(pa/2, pb/2)), c)
+				}
+				if g := ord.From[int](diff).Compare(pa, pb); g != diff(pa, pb) {
+					bad("ord.From", fmt.Sprintf("From(diff).Compare(%d,%d)=%d want %d", pa, pb, g, diff(pa, pb)), c)
 				}
 				if estd.Equal(a, b) != (pa == pb) {
 					bad("eq.ContraMap/eq.Int", fmt.Sprintf("%s: %v %v", pi.name, a, b), c)
